@@ -19,7 +19,9 @@ def gen_cases(ctx, n, maxsize):
         p = frames.param_vector(rng, ctx.quick()) if api == "c2" else {100: rng.choice([-3, 1, 3, 5, 9, 13, 17, 19])}
         if i % 12 == 5:
             # heavy profile: several full blocks of mixed compressibility through the optimal parser / splitter / sub-block paths
-            if rng.random() < 0.6:
+            if rng.random() < 0.35:
+                kind, x = "noisecopies", datagen.noisecopies(rng, rng.choice([131072, 131072, 200000, 262144]))
+            elif rng.random() < 0.6:
                 kind, x = "blockstruct", datagen.blockstruct(rng, rng.choice([2, 3, 3, 4]) * 131072 - rng.choice([0, 0, 1, 5000]))
             else:
                 kind, x = "longcopies", datagen.longcopies(rng, rng.choice([140000, 270000, 400000]))
